@@ -57,6 +57,82 @@ class LevelLog:
             cls._pc_level = property(get, set_)
 
 
+PRESTART_SCRIPT = r"""
+import sys, json
+sys.argv = [sys.argv[0]]
+cfg = json.loads(sys.stdin.read())
+from mpyc.runtime import mpc
+from mpyc import asyncoro
+mpc.options.no_async = False
+mpc.options.no_barrier = False
+started = []
+_T = asyncoro.Task
+class RT(_T):
+    def __init__(self, coro, *, loop=None):
+        super().__init__(coro, loop=loop)
+        started.append(self)
+asyncoro.Task = RT
+secint = mpc.SecInt(32)
+out = []
+def mark(label):
+    out.append([label, len(started), sum(1 for t in started if not t.done()), mpc._pc_level])
+def work(k, v):
+    x = secint(v)
+    for _ in range(k):
+        x = x * x + 1
+    return x
+vals = []
+for (pre, post) in cfg['cycles']:
+    r1 = work(pre, 2)                 # issued BEFORE start()
+    mpc.run(mpc.start())
+    mpc.run(mpc.barrier('b1'))
+    mark('barrier-after-start pre=%d' % pre)
+    r2 = work(post, 3)
+    mpc.run(mpc.barrier('b2'))
+    mark('barrier post=%d' % post)
+    r3 = work(post, 1)                # left running: shutdown has to wait for it
+    mpc.run(mpc.shutdown())
+    mark('shutdown')
+    vals.append([int(mpc.run(mpc.output(r))) for r in (r1, r2, r3)])
+print('RESULT ' + json.dumps({'marks': out, 'vals': vals}))
+"""
+
+
+def prestart_stream(ctx, stats):
+    """Work issued before mpc.start(), top-level barriers, work left running at shutdown, several start()/shutdown() cycles
+    (single party, asynchronous evaluation): at every barrier return and shutdown return no started MPyC coroutine task is
+    pending and the pending-level counter is 0 (= Barrier model: started - finished), and the values are right."""
+    import subprocess, json, os
+    from lib.core import PY
+    repo = os.environ.get('MPYC_REPO', '/repo')
+    env = dict(os.environ, PYTHONPATH=repo, PYTHONHASHSEED='0')
+    for _ in range(ctx.n(3, 8)):
+        cycles = [[ctx.rng.randrange(0, 4), ctx.rng.randrange(0, 4)] for _ in range(ctx.rng.choice([1, 2, 3]))]
+        key = {'prestart_cycles': cycles, 'm': 1, 'async': True}
+        p = subprocess.run([PY, '-c', PRESTART_SCRIPT], input=json.dumps({'cycles': cycles}), text=True, env=env,
+                           stdout=subprocess.PIPE, stderr=subprocess.PIPE, timeout=300)
+        line = [l for l in p.stdout.split('\n') if l.startswith('RESULT ')]
+        ctx.case(key, nontrivial=any(c[0] for c in cycles), kind='work before start()')
+        stats['prestart_runs'] += 1
+        if p.returncode or not line:
+            ctx.violation('program with work issued before start() did not complete (single party, async)',
+                          {'case': key, 'rc': p.returncode, 'stderr': p.stderr[-600:]})
+            continue
+        r = json.loads(line[-1][7:])
+
+        def f(k, v):
+            for _ in range(k):
+                v = v * v + 1
+            return v
+        want = [[f(a, 2), f(b, 3), f(b, 1)] for a, b in cycles]
+        bad = [mk for mk in r['marks'] if mk[2] != 0 or mk[3] != 0]
+        if bad:
+            ctx.violation('coroutine tasks pending (or pending-level counter not 0) when %s returned' % bad[0][0].split(' ')[0].split('-')[0],
+                          {'case': key, 'marks [label, started, pending, _pc_level]': r['marks']})
+        elif r['vals'] != want:
+            ctx.violation('wrong values in start()/shutdown() cycles', {'case': key, 'got': r['vals'], 'want': want})
+
+
 def to_events(vals, start=0):
     """Level sequence -> model events: +1 = Start of a fresh id, -1 = Exit of the most recently started live id."""
     evs, live, nxt, prev = [], [], 0, start
@@ -243,6 +319,7 @@ def run(ctx):
                 stats['sessions'] += 1
             finally:
                 sess.close()
+    prestart_stream(ctx, stats)
     ctx.log('simulator: %s; evaluating %d level logs in Coq' % (dict(stats), len(exprs)))
     if ok and exprs:
         res = ctx.coq_eval(['MPyC.Barrier'], exprs, chunk=6, timeout=600)
